@@ -139,6 +139,19 @@ def mval(model, x):
 
 # ---------------------------------------------------------------------------
 
+def visibly(a, b, margin=Fraction(1, 4)):
+    """formula: the two sides differ by at least `margin` (used as the optional third element of a clause:
+    counterexamples that survive floating-point replay are searched first)"""
+    try:
+        d = a - b
+    except Exception:
+        return None
+    if not isinstance(d, SV):
+        return None
+    from oracles import graph as G
+    return G.Z(G.Or(G.T(d >= margin), G.T(d <= -margin)))
+
+
 class PathResult:
     def __init__(self, outcome, clauses, inputs=None, call=None, info=None, diff=None, reach=None):
         self.outcome = outcome      # e.g. 'returned', 'raised ValueError'
